@@ -824,7 +824,9 @@ theorem sleSetupC_ok (c : Cls K) (cache : SCache) (hc : SCacheOK c cache) (r : R
   simp only
   split
   · split
-    · split <;> exact hc
+    · split
+      · intro nz hnz; exact hc nz hnz
+      · split <;> exact hc
     · split
       · exact hfresh _ rfl rfl
       · split <;> exact hfresh _ rfl rfl
